@@ -7,6 +7,73 @@ from pynetdicom2 import pdu, userdataitems as ud  # noqa: E402
 
 from . import msgs  # noqa: E402
 
+
+
+def _record_constructor_arguments():
+    """every public PDU / item / sub-item class notes the arguments it was built with (`_verif_args`), so that a round
+    trip can be judged against the values the caller *gave*, not only against what the constructor kept"""
+    import inspect
+    for mod in (pdu, ud):
+        for name, cls in list(vars(mod).items()):
+            if not inspect.isclass(cls) or cls.__module__ != mod.__name__ or '__init__' not in vars(cls):
+                continue
+            orig = cls.__init__
+            if getattr(orig, '_verif_wrapped', False):
+                continue
+
+            def wrapped(self, *a, __orig=orig, **k):
+                __orig(self, *a, **k)
+                try:
+                    b = inspect.signature(__orig).bind(self, *a, **k)
+                    b.apply_defaults()
+                    self._verif_args = {n: v for n, v in list(b.arguments.items())[1:]}
+                except TypeError:
+                    pass
+            wrapped._verif_wrapped = True
+            wrapped.__doc__ = orig.__doc__
+            cls.__init__ = wrapped
+
+
+_record_constructor_arguments()
+
+
+def _plain(v):
+    if isinstance(v, bytes):
+        try:
+            v = v.decode('utf-8')
+        except UnicodeDecodeError:
+            return v
+    if isinstance(v, str):
+        return v.strip(' \0')
+    return v
+
+
+def intent_mismatch(p, d, path=''):
+    """compare the scalar values `p` (and everything nested in it) was built with against the attributes of the same
+    name of `d` (the decoded counterpart); returns a description of the first difference, or None"""
+    args = getattr(p, '_verif_args', None) or {}
+    for n, v in args.items():
+        if isinstance(v, bool) or not isinstance(v, (int, str, bytes)) or not hasattr(d, n):
+            continue
+        got = getattr(d, n)
+        if isinstance(got, (list, tuple, dict)) or callable(got):
+            continue
+        if _plain(got) != _plain(v) and str(_plain(got)) != str(_plain(v)):
+            return '%s%s.%s was built with %r; after encode/decode it is %r' % (path, type(p).__name__, n, v, got)
+    for attr in ('variable_items', 'user_data', 'ts_sub_items', 'data_value_items', 'abs_sub_item', 'ts_sub_item'):
+        a, b = getattr(p, attr, None), getattr(d, attr, None)
+        if isinstance(a, (list, tuple)) and isinstance(b, (list, tuple)):
+            for i, (x, y) in enumerate(zip(a, b)):
+                r = intent_mismatch(x, y, '%s%s[%d].' % (path, attr, i))
+                if r:
+                    return r
+        elif a is not None and b is not None and not isinstance(a, (bytes, str, int)):
+            r = intent_mismatch(a, b, '%s%s.' % (path, attr))
+            if r:
+                return r
+    return None
+
+
 SUB_KINDS = ['maxLen', 'implClass', 'asyncOps', 'role', 'implVersion', 'extNeg', 'userId', 'userIdAc', 'generic']
 
 
@@ -122,7 +189,7 @@ def make_sub_defaults(kind, rnd):
     if kind == 'asyncOps':
         return ud.AsynchronousOperationsWindowSubItem(ints(rnd, 16), ints(rnd, 16))
     if kind == 'role':
-        return ud.ScpScuRoleSelectionSubItem(uid(rnd), rnd.choice([0, 1]), rnd.choice([0, 1]))
+        return ud.ScpScuRoleSelectionSubItem(uid(rnd), rnd.choice([0, 1, 1, 2, 0x7F, 0xFF]), rnd.choice([0, 1, 1, 3, 0x80, 0xFF]))
     if kind == 'implVersion':
         return ud.ImplementationVersionNameSubItem(text(rnd, rnd.randrange(1, 17)))
     if kind == 'extNeg':
